@@ -36,7 +36,16 @@ type call struct {
 	Shared  bool
 }
 
-func (c call) label() string { return fmt.Sprintf("%s/w%d/t%d", ckNames[c.Kind], c.Wit, c.NbTasks) }
+// c10StatZK: the PLONK prover calls of the current run use WithStatisticalZeroKnowledge (part of
+// the call label, hence of the solo-model cache key)
+var c10StatZK bool
+
+func (c call) label() string {
+	if c10StatZK && (c.Kind == ckProve || c.Kind == ckProveVerify) {
+		return fmt.Sprintf("%s/w%d/t%d/statzk", ckNames[c.Kind], c.Wit, c.NbTasks)
+	}
+	return fmt.Sprintf("%s/w%d/t%d", ckNames[c.Kind], c.Wit, c.NbTasks)
+}
 
 var nbTasksChoices = []int{0, 1, 2, 3, 16}
 
@@ -72,7 +81,11 @@ func doCall(fx *Fixture, c call, shared []solver.Option) *callResult {
 		if fx.Backend == beGroth16 {
 			proof, err = groth16.Prove(fx.CCS, fx.PK.(groth16.ProvingKey), w.Full, popt)
 		} else {
-			proof, err = plonk.Prove(fx.CCS, fx.PK.(plonk.ProvingKey), w.Full, popt)
+			if c10StatZK {
+				proof, err = plonk.Prove(fx.CCS, fx.PK.(plonk.ProvingKey), w.Full, popt, backend.WithStatisticalZeroKnowledge())
+			} else {
+				proof, err = plonk.Prove(fx.CCS, fx.PK.(plonk.ProvingKey), w.Full, popt)
+			}
 		}
 		if err != nil {
 			res.ErrClass, res.Err = errClass(err), err.Error()
@@ -156,6 +169,10 @@ func c10Run(w *Worker, tape *simrt.Tape) *Outcome {
 	w.SetEntropy(simrt.Mix(w.Seed^0xc10, uint64(slot)*16+uint64(be)), simrt.EntKeyed, 0)
 	cfg := drawPolicy(tape)
 	nclients := 2 + ch(3)
+	c10StatZK = be == bePlonk && ch(3) == 0
+	if c10StatZK {
+		o.probe("opts:statzk")
+	}
 	sharedTasks := nbTasksChoices[1+ch(len(nbTasksChoices)-1)]
 	clients := make([][]call, nclients)
 	var descParts []string
